@@ -8,7 +8,7 @@ Machine = hgm.IdMachine
 PROP = {
     "id": "C06",
     "quick_n": 330,
-    "thorough_n": 5000,
+    "thorough_n": 3300,
     "rule": "one program = a history over a pool of up to 7 aggregators (two or three constructed "
             "separately from the same spec, some relying on default arguments), interleaving "
             "fills, +=, +, *, zero, copy and hash; after every operation the identity partition "
